@@ -170,7 +170,7 @@ def gen_sx(rng):
                 toks.append("r%d" % k)
                 held.discard(k)
             elif r < 0.48:
-                toks.append(rng.choice(["w", "fa"]))     # refused: busy
+                toks.append(rng.choice(["w", "fa", "fe"]))     # refused: busy
             elif r < 0.88:
                 toks.append("cm")
                 kind, ids = pending
@@ -190,9 +190,11 @@ def gen_sx(rng):
             toks.append("w")
             parts.append((next_id, "m"))
             next_id += 1
-        elif r < 0.43:
+        elif r < 0.40:
             toks.append("fa")
             parts = [(i, "f") for i, _ in parts]
+        elif r < 0.47:
+            toks.append("fe")        # flush round with nothing to flush for this index
         elif r < 0.70:
             pool = list(files)
             rng.shuffle(pool)
@@ -222,8 +224,24 @@ def gen_sx(rng):
 
 
 def gen_ss(rng):
-    """real stream write-queue table: flush windows with several mem parts for several segment ids"""
+    """real stream tables (two shards of one segment): flush windows with several mem parts for several segment ids on
+    shard A, plain writes on shard B, real queries (getBlockScanner) whose time range selects no part of some shard, some
+    parts, or all parts; closed normally or early"""
     toks = []
+    nb = 0
+
+    def query():
+        k = rng.random()
+        if k < 0.3 or nb == 0:
+            lo, hi = rng.choice([(0, 5), (0, 1000000), (1000000, 2000000)])
+        elif k < 0.8:
+            b = rng.randrange(1, nb + 1)
+            lo, hi = b * 10, b * 10 + rng.choice([0, 1])
+        else:
+            b = rng.randrange(1, nb + 1)
+            lo, hi = b * 10, (b + rng.randrange(0, 3)) * 10 + 1
+        return "%s:%d-%d" % ("e" if rng.random() < 0.25 else "q", lo, hi)
+
     for _ in range(rng.choice([1, 2, 3, 4])):
         segs = rng.sample([0, 1, 2, 3, 4], rng.choice([1, 2, 2, 3]))
         window = []
@@ -233,11 +251,21 @@ def gen_ss(rng):
             rng.shuffle(window)
         for sg in window:
             toks.append("w%d" % sg)
-            if rng.random() < 0.12:
+            nb += 1
+            r = rng.random()
+            if r < 0.12:
                 toks.append("a%d" % rng.randrange(3))
+            elif r < 0.30:
+                toks.append("v")
+                nb += 1
+            elif r < 0.45:
+                toks.append(query())
         toks.append("ff")
+        for _ in range(rng.choice([0, 1, 1, 2])):
+            toks.append(query())
         if rng.random() < 0.3:
             toks.append("r%d" % rng.randrange(3))
+    toks.append("q:0-1000000")
     if rng.random() < 0.4:
         toks.append("c")
         toks.append("r%d" % rng.randrange(3))
@@ -464,7 +492,7 @@ def oracle_tx(line, out):
         refs = [int(x) for x in f["refs"].split(",")] if f["refs"] else []
         skip = ds.startswith("skip")
         if op == "N":
-            txs[ntx] = {"n": 0, "fin": None, "rel": False}
+            txs[ntx] = {"n": 0, "fin": None, "rel": False, "mgrs": []}
             ntx += 1
         else:
             j = int(op[1:].split(":")[0])
@@ -475,12 +503,17 @@ def oracle_tx(line, out):
             elif op[0] in "TZ":
                 if not skip:
                     t["n"] += 1
+                    t["mgrs"].append(op[1:].split(":")[1])
                     if t["fin"] is not None:
                         leaked = True      # transition added after finalisation is never committed nor rolled back
             elif op[0] in "CR":
                 before = last
                 if t["fin"] is None:
                     t["fin"] = op[0]
+                    # Commit publishes in the order the transitions were added
+                    if op[0] == "C" and f.get("ord", "-") != (",".join(t["mgrs"]) or "-"):
+                        return "step %d (%s): commit reached the managers in order %s, transitions were added in order %s" % (
+                            i, op, f.get("ord"), ",".join(t["mgrs"]) or "-")
                     if op[0] == "R" and before is not None and before[0] != cur:
                         return "step %d (%s): rollback changed a current snapshot: %s -> %s" % (i, op, before[0], cur)
                 else:
@@ -534,12 +567,16 @@ def oracle_sx(line, out):
             return where + str(e)
         parts = parse_list(f["C"]) if f["C"] != "-" else []
         hl = {}
+        hmeta = {}
         for t in f.get("H", "").split(";"):
             if t:
-                k, _, rest = t.partition(":")
+                k, sid, ref, rest = t.split(":", 3)
                 lst, _, hq = rest.rpartition("=")
                 hl[int(k)] = (lst, hq)
+                hmeta[int(k)] = (int(sid), int(ref), parse_list(lst))
         refused = bool(pfx)
+        if op == "fe" and not refused and parts != prev_parts:
+            return where + "an empty flush introduction changed the part list: %s -> %s" % (prev_parts, parts)
         if op == "w" and not refused:
             nbatch += 1
             expect[nbatch] = 2
@@ -597,28 +634,55 @@ def oracle_sx(line, out):
         if q != expect:
             state = " (between prepare and commit)" if pending else ""
             return where + "the index shows %s, expected every written entry exactly once: %s%s" % (q, expect, state)
+        # -- reference accounting: the live snapshot is held by the table (+ a prepared transition) + its holders;
+        #    a part is held once by every live snapshot listing it (+ once by a prepared next snapshot that keeps it)
+        if f.get("R", "-") != "-":
+            csid, cref = (int(x) for x in f["R"].split(":"))
+            live = {csid: parts}
+            want = 1 + sum(1 for m in hmeta.values() if m[0] == csid) + (1 if pending else 0)
+            if cref != want:
+                return where + "live snapshot has ref %d, expected %d (table + holders%s)" % (cref, want, " + prepared transition" if pending else "")
+            for k, (sid, ref, lst) in hmeta.items():
+                live[sid] = lst
+                if sid != csid:
+                    w2 = sum(1 for m in hmeta.values() if m[0] == sid)
+                    if ref != w2:
+                        return where + "held snapshot %d has ref %d, expected %d" % (sid, ref, w2)
+            prefs = dict((t.split(":")[0], int(t.split(":")[1])) for t in f.get("W", "").split(",") if t)
+            for name, ref in prefs.items():
+                w3 = sum(1 for lst in live.values() if name in lst)
+                if pending and name in parts and name not in pending[1]:
+                    w3 += 1
+                if ref != w3:
+                    return where + "part %s has ref %d, expected %d (snapshots listing it)" % (name, ref, w3)
         prev_parts = parts
     return None
 
 
 def oracle_ss(line, out):
-    """real stream table: elements held by the parts of the current snapshot = elements written, each once (a merged
-    part must never be listed together with the mem parts it was built from); held part lists never change"""
+    """real stream tables: elements held by the parts of each shard's current snapshot = elements written to it, each
+    once (a merged part must never be listed together with the mem parts it was built from); held part lists never
+    change; a real query (getBlockScanner … close) leaves every snapshot / part reference count exactly as it found it,
+    whatever its time range selects and whether it is closed after scanning or early; a full-range query returns every
+    element written"""
     ops = line.split()[1:]
     if "PANIC" in out or "CRASH" in out or out == "bad-op":
         return "implementation failed: " + out[:300]
     dumps = out.split(" | ")
     if len(dumps) != len(ops):
         return "expected %d dumps, got %d" % (len(ops), len(dumps))
-    written = 0
+    written = {"A": 0, "B": 0}
     held = {}
     closed = False
+    prev = None
     for i, (op, ds) in enumerate(zip(ops, dumps)):
         where = "step %d (%s): " % (i, op)
         f = dict(t.split("=", 1) for t in ds.split() if "=" in t)
         refused = any("=" not in t for t in ds.split())
         if op[0] == "w" and not refused:
-            written += 2
+            written["A"] += 2
+        if op == "v" and not refused:
+            written["B"] += 2
         if op == "c":
             closed = True
         hl = {}
@@ -633,12 +697,29 @@ def oracle_ss(line, out):
         if hl != held:
             return where + "held snapshots %s, expected unchanged %s" % (hl, held)
         if closed:
+            prev = f
             continue
-        if int(f["N"]) != written:
-            return where + "%d elements written but the current snapshot's parts %s hold %s (a merged part listed together with its inputs / a part lost)" % (
-                written, f["C"], f["N"])
+        if int(f["N"]) != written["A"] or int(f["NB"]) != written["B"]:
+            return where + "%s elements written but the current snapshots' parts %s / %s hold %s / %s (a merged part listed together with its inputs / a part lost)" % (
+                written, f["C"], f["B"], f["N"], f["NB"])
         if op == "ff" and not refused and re.search(r"\d+m\*", f["C"]):
             return where + "mem parts left after a flusher step: %s" % f["C"]
+        if op[:2] in ("q:", "e:") and not refused:
+            if f.get("q") == "ERR":
+                return where + "query failed"
+            if prev is not None:
+                for key in ("C", "B", "W"):
+                    if f[key] != prev[key]:
+                        return where + "the query did not give back exactly what it pinned: %s was %s, now %s" % (key, prev[key], f[key])
+            if op == "q:0-1000000":
+                got = int(f["q"].split("/")[1])
+                if got != written["A"] + written["B"]:
+                    return where + "a full-range query returned %d elements, %d were written" % (got, written["A"] + written["B"])
+        # the table keeps its own reference on its current snapshot
+        for key in ("C", "B"):
+            if f[key] != "-" and int(f[key].split(":")[0]) < 1:
+                return where + "current snapshot of shard %s has ref %s" % ("A" if key == "C" else "B", f[key].split(":")[0])
+        prev = f
     return None
 
 
@@ -653,7 +734,7 @@ class C05(vlib.Spec):
         "flag_reading_query_counterexample", "batchInv_reachable", "view_nodup", "curView_step",
         "delete_exactly_once_after_last_reader", "delCount_mono", "delete_at_most_once_ever",
         "txn_commit_idempotent", "txn_rollback_idempotent", "txn_commit_after_rollback_noop",
-        "txn_acct_newTransition", "txn_commit_applies_all", "txn_balanced_after_release", "txn_rollback_applies_none",
+        "txn_acct_newTransition", "txn_commit_applies_all", "txn_commit_in_order", "txn_balanced_after_release", "txn_rollback_applies_none",
         "pub_fenced_reader_consistent", "pub_unfenced_core_monotone", "pub_unfenced_counterexample"]] + [
         "Banyan.Tie.C05." + t for t in [
             "currentSnapshot_incref_under_rlock", "replaceSnapshot_under_lock", "snapshot_decref_shape",
@@ -716,7 +797,7 @@ class C05(vlib.Spec):
     def oracle(self, line, g):
         kind = line.split(" ", 1)[0]
         for t in line.split()[1:]:
-            key = "op:" + kind + ":" + (t[0] if kind == "tx" else (t[:2] if t[:2] in ("fa", "f:", "m:", "s:", "pm", "ps", "cm", "rb", "ff") else t[0]))
+            key = "op:" + kind + ":" + (t[0] if kind == "tx" else (t[:2] if t[:2] in ("fa", "fe", "f:", "m:", "s:", "pm", "ps", "cm", "rb", "ff", "q:", "e:") else t[0]))
             self.hist[key] = self.hist.get(key, 0) + 1
         msg = {"ms": oracle_ms, "tx": oracle_tx, "sx": oracle_sx, "ss": oracle_ss}[kind](line, g)
         if kind == "sx" and msg is None and re.search(r"(pm|ps):[\d,]+ (a\d |r\d )*(cm|rb)", line):
